@@ -14,7 +14,7 @@ pub fn props() -> Vec<Prop> {
         id: "C12",
         run: c12,
         tools: None,
-        rule: "every public Memfs method (all Op variants: creators, writers, readers, remove/move/copy/symlink, chmod/chown builders, queries, listings, entries) is called under catch_unwind with every string up to length 3 (quick) / 4 (thorough) over the 13-symbol hostile alphabet {/ . ~ $ { } : a e-acute euro emoji space backslash} (two-path methods: every ordered pair of strings up to length 2 / 3) from 3 prepared states, plus long '..' chains, 4 KiB names, seeded random Unicode, extreme modes (0, 0o7777, u32::MAX) and ids; read/write/append handles get extreme seek/read scripts. After every call that returned Err or panicked a probe (mkfile + exists + remove of a fresh path, lock not poisoned, C03 walker) must succeed. A CPU/wall watchdog turns a call that does not return into a hang record, a counting allocator turns unbounded allocation into a blow-up record. The 21 PathExt helpers, sys::* path functions, StringExt, IteratorExt (extreme indices) and PeekableExt run over the same strings / all pairs. Run in the checked-arithmetic profile and again in a wrapping-arithmetic (release-like) profile. distinct_nontrivial = distinct (function, string class(es), outcome class) triples. Later additions: a second exhaustive alphabet of characters whose case mapping changes their UTF-8 length; a 70-deep prepared state with an empty directory at the bottom (deeper than the traversal's cap of 50 open directories); links whose recorded kind is stale; every single-path method and a set of follow-option calls on every prepared path.",
+        rule: "every public Memfs method (all Op variants: creators, writers, readers, remove/move/copy/symlink, chmod/chown builders, queries, listings, entries) is called under catch_unwind with every string up to length 3 (quick) / 4 (thorough) over the 13-symbol hostile alphabet {/ . ~ $ { } : a e-acute euro emoji space backslash} (two-path methods: every ordered pair of strings up to length 2 / 3) from 3 prepared states, plus long '..' chains, 4 KiB names, seeded random Unicode, extreme modes (0, 0o7777, u32::MAX) and ids; read/write/append handles get extreme seek/read scripts. After every call that returned Err or panicked - and after every call that reported success and changed the state - a probe (mkfile + exists + remove of a fresh path, lock not poisoned, C03 walker) must succeed. A CPU/wall watchdog turns a call that does not return into a hang record, a counting allocator turns unbounded allocation into a blow-up record. The 21 PathExt helpers, sys::* path functions, StringExt, IteratorExt (extreme indices) and PeekableExt run over the same strings / all pairs. Run in the checked-arithmetic profile and again in a wrapping-arithmetic (release-like) profile. distinct_nontrivial = distinct (function, string class(es), outcome class) triples. Later additions: a second exhaustive alphabet of characters whose case mapping changes their UTF-8 length; a 70-deep prepared state with an empty directory at the bottom (deeper than the traversal's cap of 50 open directories); links whose recorded kind is stale; every single-path method and a set of follow-option calls on every prepared path.",
         assumptions: &["a hang is decided on CPU time burnt inside one call (20 s) or on 90 s without progress and without CPU use; anything else that stalls is inconclusive"],
         shards_quick: 8,
         shards_thorough: 16,
@@ -122,7 +122,7 @@ fn probe(m: &Memfs, call: &str, rep: &mut Report, wit: &J) {
     });
     let snap = catch(|| m.verif_snapshot());
     let healthy = matches!(ok, Ok(true)) && snap.as_ref().map(|s| !s.poisoned && check_invariants(s).is_empty()).unwrap_or(false);
-    rep.count("probes_after_error", 1);
+    rep.count("probes", 1);
     if !healthy {
         rep.violation(
             &format!("total:{}:usable-afterwards→wedged", call),
@@ -233,6 +233,12 @@ fn run_ops(state_k: usize, ops: &[Op], classes: &str, rep: &mut Report) {
             // keep every call on the prepared state
             let now = m.verif_snapshot();
             if now != base {
+                // a call that reported success and changed something must leave a usable instance as well
+                // (remove_all of a spelling of the root is the kind of call that could take too much with it)
+                if !matches!(r, Res::Err(_) | Res::Panic(_)) {
+                    rep.count("probes_after_successful_changes", 1);
+                    probe(&m, &call, rep, &wit);
+                }
                 m = build_state(state_k);
                 base = m.verif_snapshot();
             }
